@@ -429,10 +429,9 @@ func runHistory(u *universe, roots []rootRef, permSeed int64, phases int) histOu
 		return o
 	}
 
-	// (vi) concurrency: up to 16 goroutines over one shared client.
+	// (vi) concurrency: up to 16 goroutines over one shared client, in a
+	// child process (see conc.go).
 	if phases&4 != 0 && len(o.live) > 0 {
-		c := u.client(nil)
-		before := dumpClient(c, u)
 		var tasks []rootRef
 		for len(tasks) < 2*maxConc {
 			tasks = append(tasks, o.live...)
@@ -440,35 +439,31 @@ func runHistory(u *universe, roots []rootRef, permSeed int64, phases int) histOu
 		if len(tasks) > 4*maxConc {
 			tasks = tasks[:4*maxConc]
 		}
-		shared := newResolver(sys, c) // npm: documented safe; Maven: stateless
-		results := make([]string, len(tasks))
-		var wg sync.WaitGroup
-		gate := make(chan struct{})
-		for w := 0; w < maxConc; w++ {
-			wg.Add(1)
-			go func(w int) {
-				defer wg.Done()
-				r := shared
-				if sys == resolve.PyPI {
-					r = newResolver(sys, c) // one resolver per goroutine (its caches are not locked)
-				}
-				<-gate
-				for i := w; i < len(tasks); i += maxConc {
-					results[i] = resolveLater(r, sys, tasks[i], o.g0[tasks[i]])
-				}
-			}(w)
-		}
-		close(gate)
-		wg.Wait()
-		for i, rt := range tasks {
-			if results[i] != o.g0[rt] {
-				o.conc = false
-				note("concurrent: task %d root %s@%s\nsolo:\n%s\nconcurrent:\n%s", i, rt.Name, rt.Version, o.g0[rt], results[i])
-			}
-		}
-		if after := dumpClient(c, u); after != before {
+		hashes, same, crashed, err := concInChild(u, tasks)
+		switch {
+		case err != nil:
+			// could not run the child at all (or it exceeded its time): nothing observed
+			o.timeout = true
+			return o
+		case crashed != "":
 			o.conc = false
-			note("client changed under concurrent resolution:\n%s", firstDiff(before, after))
+			note("concurrent: the process running %d concurrent Resolve calls over one client died:\n%s", len(tasks), crashed)
+		default:
+			for i, rt := range tasks {
+				want := o.g0[rt]
+				if i >= len(hashes) || hashes[i] != shortHash(want) {
+					o.conc = false
+					got := "?"
+					if i < len(hashes) {
+						got = hashes[i]
+					}
+					note("concurrent: task %d root %s@%s\nsolo:\n%s\nconcurrent (hash or outcome): %s, expected hash %s", i, rt.Name, rt.Version, want, got, shortHash(want))
+				}
+			}
+			if !same {
+				o.conc = false
+				note("client changed under concurrent resolution")
+			}
 		}
 	}
 	if over() {
